@@ -67,6 +67,8 @@ func scanWants(prop string, o *Obligation) bool {
 			return true
 		case o.Class == "post:2", o.Class == "post:3":
 			return true
+		case o.Class == "newline":
+			return prop == "C04"
 		}
 		return false
 	}
